@@ -178,6 +178,8 @@ class State:
         self.po = 0
         self.unwinding = None
         self.depth_guard = 0
+        self.nforks = 0
+        self.park_key = None
 
     def fork(self):
         s = State.__new__(State)
@@ -206,6 +208,8 @@ class State:
         s.po = self.po
         s.unwinding = self.unwinding
         s.depth_guard = self.depth_guard
+        s.nforks = self.nforks
+        s.park_key = None
         return s
 
     # ---- objects
@@ -233,6 +237,7 @@ class State:
         return self.mem[oid]
 
 
+EXTERN_ZERO_GLOBALS = ['panic_count18GLOBAL_PANIC_COUNT']
 HEAP_BASE = 0x10000000
 HEAP_STRIDE = 0x01000000
 STACK_BASE = 0x7000000000
@@ -335,6 +340,19 @@ class Engine:
                 continue
             o = st.find_obj(self.global_addr[key])
             self._init_value(st, m, o, 0, g.ty, g.init)
+        # external statics of std that the code only reads: modelled as zero (listed in models.MODELS)
+        self.extern_addr = {}
+        for m in self.modules:
+            for name, g in m.globals.items():
+                if g.external and not g.tls and self._gkey(m, name) is None and name not in self.extern_addr:
+                    if any(pat in name for pat in EXTERN_ZERO_GLOBALS):
+                        size = m.size_of(g.ty)
+                        addr = (addr + 15) // 16 * 16
+                        o = Obj(next(_obj_ctr), addr, size, 'global', name)
+                        st.add_obj(o)
+                        self._zero(st.cells(o.id, True), 0, size)
+                        self.extern_addr[name] = addr
+                        addr += size + 64
         return st
 
     def _init_value(self, st, m, obj, off, ty, val):
@@ -647,6 +665,8 @@ class Engine:
                 return self.tls_instance(st, m, name)
             if name in self.func_addr:
                 return self.func_addr[name]
+            if name in self.extern_addr:
+                return self.extern_addr[name]
             raise Unsupported('unknown global @%s' % name)
         if k in ('inttoptr', 'ptrtoint'):
             return self.val(st, fr, m, v[1])
@@ -859,26 +879,242 @@ class Engine:
         st.status = 'running'
         st.retval = None
         st.nsteps = 0
-        work = [st]
+        segment = [st]
         leaves = []
-        while work:
-            s = work.pop()
-            try:
-                forks = self.run(s)
-            except EngineError as e:
-                # engine-level violation on a feasible path
-                self.oblige(s, 'engine', None, e.kind, None, e.msg)
-                s.status = 'engine-error'
-                forks = None
-            if forks:
-                self.stats['forks'] += len(forks) - 1
-                work.extend(forks)
-            else:
-                leaves.append(s)
-                self.stats['paths'] += 1
-                if len(leaves) > self.max_paths:
-                    raise Unsupported('more than %d paths' % self.max_paths)
+        while segment:
+            work = segment
+            segment = []
+            parked = {}
+            while work:
+                s = work.pop()
+                try:
+                    forks = self.run(s)
+                except EngineError as e:
+                    # engine-level violation on a feasible path
+                    self.oblige(s, 'engine', None, e.kind, None, e.msg)
+                    s.status = 'engine-error'
+                    forks = None
+                if forks:
+                    self.stats['forks'] += len(forks) - 1
+                    for f_ in forks:
+                        f_.nforks += 1
+                    work.extend(forks)
+                elif s.status == 'parked':
+                    parked.setdefault(s.park_key, []).append(s)
+                else:
+                    leaves.append(s)
+                    self.stats['paths'] += 1
+                    if len(leaves) > self.max_paths:
+                        raise Unsupported('more than %d paths' % self.max_paths)
+            for key, group in parked.items():
+                for m in self.merge_states(group):
+                    m.status = 'running'
+                    segment.append(m)
         return leaves
+
+    # ------------------------------------------------------------------ state merging at verif_merge()
+    def merge_states(self, group):
+        """Merge the states parked at the same merge point. States that differ in shape (frames, object
+        liveness) are kept apart."""
+        buckets = {}
+        for s in group:
+            sig = (tuple((f.fn.name, f.block, f.idx, tuple(f.allocas)) for f in s.frames),
+                   tuple(sorted(k for k, v in s.live.items() if v)), s.thread,
+                   tuple(sorted((t, tuple(v)) for t, v in s.tls_dtors.items())))
+            buckets.setdefault(sig, []).append(s)
+        out = []
+        for sig, states in buckets.items():
+            if len(states) == 1:
+                out.append(states[0])
+            else:
+                out.append(self._merge(states))
+                self.stats['merges'] = self.stats.get('merges', 0) + len(states) - 1
+        return out
+
+    def _merge(self, states):
+        n = len(states)
+        # common pc prefix
+        k = 0
+        m0 = min(len(s.pc) for s in states)
+        while k < m0 and all(s.pc[k] is states[0].pc[k] for s in states[1:]):
+            k += 1
+        conds = []
+        for s in states:
+            suf = s.pc[k:]
+            conds.append(z3.And(*suf) if len(suf) > 1 else (suf[0] if suf else z3.BoolVal(True)))
+
+        def mix(vals):
+            """ite over the path conditions, grouping equal values."""
+            first = vals[0]
+            same = True
+            for v in vals[1:]:
+                if not self._same(first, v):
+                    same = False
+                    break
+            if same:
+                return first
+            if isinstance(first, tuple):
+                return tuple(mix([v[i] for v in vals]) for i in range(len(first)))
+            groups = []
+            for v, c in zip(vals, conds):
+                for g_ in groups:
+                    if self._same(g_[0], v):
+                        g_[1].append(c)
+                        break
+                else:
+                    groups.append((v, [c]))
+            # width
+            bits = None
+            isbool = False
+            for v, _ in groups:
+                if not isinstance(v, int):
+                    if z3.is_bool(v):
+                        isbool = True
+                    else:
+                        bits = v.size()
+            res = None
+            for v, cs in reversed(groups):
+                if isbool or (bits is None and all(isinstance(g_[0], int) and g_[0] in (0, 1) for g_ in groups) and False):
+                    term = as_bool(v)
+                else:
+                    term = as_bv(v, bits or 64)
+                if res is None:
+                    res = term
+                else:
+                    res = z3.If(z3.Or(*cs) if len(cs) > 1 else cs[0], term, res)
+            return simp(res)
+
+        base = states[0]
+        ms = base.fork()
+        ms.pc = list(base.pc[:k])
+        ms.pc.append(z3.Or(*conds))
+        # registers
+        for fi, fr in enumerate(ms.frames):
+            names = set()
+            for s in states:
+                names |= set(s.frames[fi].regs)
+            for nm in names:
+                vals = []
+                ok = True
+                for s in states:
+                    if nm not in s.frames[fi].regs:
+                        ok = False
+                        break
+                    vals.append(s.frames[fi].regs[nm])
+                if not ok:
+                    fr.regs.pop(nm, None)     # defined on some paths only: dead after the join
+                    continue
+                fr.regs[nm] = mix(vals)
+            vis = {}
+            for s in states:
+                for lab, ent in s.frames[fi].visits.items():
+                    cur = vis.get(lab)
+                    if cur is None or ent[0] > cur[0]:
+                        vis[lab] = ent
+            fr.visits = vis
+        # memory
+        oids = set()
+        for s in states:
+            oids |= set(s.mem)
+        for oid in oids:
+            dicts = [s.mem.get(oid) for s in states]
+            if all(d is dicts[0] for d in dicts):
+                continue
+            if not any(s.live.get(oid, False) for s in states):
+                # dead everywhere (popped stack frames): content is irrelevant
+                src = next(s for s in states if oid in s.mem)
+                ms.objs[oid] = src.objs[oid]
+                if oid not in base.objs:
+                    bisect.insort(ms.bases, (src.objs[oid].base, oid))
+                ms.live[oid] = False
+                ms.mem[oid] = src.mem[oid]
+                continue
+            present = [d for d in dicts if d is not None]
+            if len(present) < n:
+                # object exists on some paths only (allocated after the segment start): keep the first view
+                src = next(s for s in states if oid in s.mem)
+                ms.objs[oid] = src.objs[oid]
+                if oid not in base.objs:
+                    bisect.insort(ms.bases, (src.objs[oid].base, oid))
+                ms.live[oid] = src.live.get(oid, False)
+                if len(present) > 1 and not all(d is present[0] for d in present):
+                    raise Unsupported('merge: object %r differs between paths that allocated it separately' % src.objs[oid])
+                ms.mem[oid] = dict(present[0])
+                ms.owned.add(oid)
+                continue
+            offs = set()
+            for d in dicts:
+                offs |= set(d)
+            newd = {}
+            for off in offs:
+                ents = [d.get(off) for d in dicts]
+                if any(e is None for e in ents) or len(set(e[0] for e in ents)) != 1:
+                    # partially written / different granularity: read bytewise through each view
+                    sz = max(e[0] for e in ents if e is not None)
+                    vals = []
+                    for s in states:
+                        vals.append(self.mem_read(s, s.objs[oid].base + off, sz, None, s.objs[oid]))
+                    newd[off] = (sz, mix(vals))
+                    continue
+                newd[off] = (ents[0][0], mix([e[1] for e in ents]))
+            ms.mem[oid] = newd
+            ms.owned.add(oid)
+        # logs
+        seen = set()
+        evs = []
+        for s in states:
+            for e in s.events:
+                if e.id not in seen:
+                    seen.add(e.id)
+                    evs.append(e)
+        ms.events = evs
+        seen = set()
+        obl = []
+        for s in states:
+            for o in s.oblig:
+                if id(o) not in seen:
+                    seen.add(id(o))
+                    obl.append(o)
+        ms.oblig = obl
+        seen = set()
+        mk = []
+        for s in states:
+            for x in s.marks:
+                if id(x) not in seen:
+                    seen.add(id(x))
+                    mk.append(x)
+        ms.marks = mk
+        cov = {}
+        for s in states:
+            for cid, gl in s.covers.items():
+                cov.setdefault(cid, [])
+                for g_ in gl:
+                    if not any(g_ is h for h in cov[cid]):
+                        cov[cid].append(g_)
+        ms.covers = cov
+        ms.po = max(s.po for s in states)
+        ms.nsteps = max(s.nsteps for s in states)
+        ms.spurious = max(s.spurious for s in states)
+        ms.nforks = max(s.nforks for s in states)
+        for t in set().union(*[set(s.next_heap) for s in states]):
+            ms.next_heap[t] = max(s.next_heap.get(t, 0) for s in states)
+        for t in set().union(*[set(s.next_stack) for s in states]):
+            ms.next_stack[t] = max(s.next_stack.get(t, 0) for s in states)
+        for s in states:
+            for key_, oid in s.tls_inst.items():
+                ms.tls_inst.setdefault(key_, oid)
+        return ms
+
+    @staticmethod
+    def _same(a, b):
+        if a is b:
+            return True
+        if isinstance(a, int) or isinstance(b, int):
+            return isinstance(a, int) and isinstance(b, int) and a == b
+        if isinstance(a, tuple) or isinstance(b, tuple):
+            return (isinstance(a, tuple) and isinstance(b, tuple) and len(a) == len(b)
+                    and all(Engine._same(x, y) for x, y in zip(a, b)))
+        return z3.eq(a, b)
 
     def run(self, st):
         """Run st until it terminates (return None) or forks (return list of states)."""
@@ -901,13 +1137,13 @@ class Engine:
     def goto(self, st, fr, label, ins):
         ent = fr.visits.get(label)
         if ent is None:
-            fr.visits[label] = (1, len(st.pc), 0)
+            fr.visits[label] = (1, st.nforks, 0)
         else:
             n, plen, sym = ent
             n += 1
-            if len(st.pc) != plen:
-                sym += 1        # a symbolic decision was taken since the last visit: a "real" iteration
-            fr.visits[label] = (n, len(st.pc), sym)
+            if st.nforks != plen:
+                sym += 1        # the path forked since the last visit: a "real" (symbolic) iteration
+            fr.visits[label] = (n, st.nforks, sym)
             if sym > self.loop_bound or n > self.concrete_loop_bound:
                 self.oblige(st, 'bound', None, 'loop:%s:%s' % (fr.fn.name[-24:], label), ins,
                             'loop bound (%d symbolic / %d total iterations) exceeded at %s' % (
@@ -1307,12 +1543,21 @@ class Engine:
 
     def _domain(self, st, s, own, ow, size):
         vals, top, _ = ow
-        if top or (own is not None and not is_conc(own)):
+        if top:
             return
         opts = set(vals)
         if own is not None:
-            opts.add(own)
-        st.pc.append(z3.Or(*[s == v for v in sorted(opts)]))
+            if is_conc(own):
+                opts.add(own)
+            else:
+                try:
+                    opts |= set(self.values_of(st, as_bv(own, size * 8), limit=8))
+                except Unsupported:
+                    return
+        if len(opts) == 1:
+            st.pc.append(s == next(iter(opts)))
+        else:
+            st.pc.append(z3.Or(*[s == v for v in sorted(opts)]))
 
     def write_cell(self, st, addr, size, v, ordering, atomic, ins, kind='W'):
         env = self.env
